@@ -115,6 +115,7 @@ pub fn run_bytes(data: &[u8]) {
         shallow_clone: s.layout_seed & 1 == 1,
         clone_panics: 0,
         slot_consume: true,
+        dtor_unwrap: false,
         allow_consume: false,
         clone_reentrant: false,
         default_ctor: 0,
